@@ -2,6 +2,7 @@
   C06 — time-to-idle: no entry is observable after tti without an access.
 -/
 import MiniMoka.Lemmas.UnsyncLookup
+import MiniMoka.Lemmas.SketchLaws
 import MiniMoka.Lemmas.SyncLookup
 
 namespace MiniMoka
@@ -14,11 +15,11 @@ history, a key yielded by a lookup at reading `now` satisfies `now < a + d`, whe
 reading of its most recent insert, update or *successful get*; `contains_key` and iteration
 never count as an access (the reference bookkeeping does not record them, so if they
 extended the idle timer the bound would fail). -/
-theorem C06_unsync {P : Sketch → Prop} (L : SketchLaws P) (p : Params) (hq : NoQuirks p)
+theorem C06_unsync (p : Params) (hq : NoQuirks p)
     (hsm : SmallSketch p) (h : List Op) :
     oracleC06 .unsync p.tti (Unsync.trace p h) = true := by
   unfold oracleC06 Unsync.trace
-  refine lookupOracle_of_coupled L hq hsm _ ?_ h {} {} (init_inv L p) (init_coupled p)
+  refine lookupOracle_of_coupled sketchLaws hq hsm _ ?_ h {} {} (init_inv sketchLaws p) (init_coupled p)
   intro g kv hkv
   simp only [allChecks, Bool.and_eq_true] at hkv
   exact hkv.2
